@@ -446,6 +446,7 @@ func c19(r *Report, s *Sem) {
 		r.Check(R4, "func "+fnName(fn)+" / result", p.pos(fn.Pos()), ok && n >= 2, "success is reported only by the established-state write of the channel obtained from getOrBuildChannel")
 	}
 	_ = types.Typ
+	r.Import(s, "C12", "R1", "R7", "a send reports success only if the whole envelope was written: the TCP write wrapper resumes after a transient timeout with the unsent remainder and every return reports the accumulated count — never a short count with a nil error, which encoding/json ignores", 2)
 }
 
 // backSlice collects the values v depends on through arithmetic/conversion/call-argument edges (bounded).
